@@ -164,19 +164,24 @@ def run_shard(modname, tier, seed, shard, nshards, replay_case=None):
                 stats['sigs'][h] = 1
             if len(stats['samples']) < 3 and res.sig:
                 stats['samples'].append({'origin': origin, 'case': case, 'real': res.real})
+            known_here = False
             if res.monitor:
                 # the property statement fails on the real code
                 if res.key is not None and res.key in known:
                     stats['known_hits'][res.key] = known[res.key]
-                    continue
-                small = _shrink(check, case, drv, lambda r: bool(r.monitor) and r.key == res.key)
-                rs = check.run_case(small, drv)
-                if rs.key is not None and rs.key in known:
-                    stats['known_hits'][rs.key] = known[rs.key]
-                    continue
-                outcome = {'kind': 'failing-input', 'case': small, 'shrunk_from': case, 'monitor': rs.monitor,
-                           'key': rs.key, 'observed': rs.real, 'model_output': rs.model, 'origin': origin}
-                break
+                    known_here = True
+                else:
+                    small = _shrink(check, case, drv, lambda r: bool(r.monitor) and r.key == res.key)
+                    rs = check.run_case(small, drv)
+                    if rs.key is not None and rs.key in known:
+                        stats['known_hits'][rs.key] = known[rs.key]
+                        known_here = True
+                    else:
+                        outcome = {'kind': 'failing-input', 'case': small, 'shrunk_from': case, 'monitor': rs.monitor,
+                                   'key': rs.key, 'observed': rs.real, 'model_output': rs.model, 'origin': origin}
+                        break
+            # a listed finding suppresses only the monitor line: the model reproduces the recorded behaviour exactly, so the
+            # implementation is still compared with it on this case (a different misbehaviour on the same inputs is not hidden)
             if res.real != res.model:
                 # broken correspondence: search for an input on which the property itself fails
                 found = None
